@@ -11,7 +11,7 @@ import tempfile
 
 import parse as _parse
 from hypothesis import strategies as st
-from hypothesis.stateful import RuleBasedStateMachine, precondition, rule
+from hypothesis.stateful import RuleBasedStateMachine, initialize, precondition, rule
 
 import vf  # noqa: F401  (puts BEHAVE_SRC first on sys.path)
 from ..core import CaseResult, HarnessError
@@ -40,6 +40,8 @@ ASSUMPTIONS = [
     "consistency are checked (which split parse chooses is left open)",
     "a different function registered with the IDENTICAL pattern text that does not match itself as a text "
     "(e.g. 'foo {n:d}' twice) is left open (never generated): the statement only speaks of patterns the existing definition matches",
+    "the same function registered again with the same text under a matcher of different anchoring ('re' vs parse/cfparse), "
+    "or with the same regex written once for 're' and once with ^...$ for 're0', is left open (never generated)",
     "a regex group that did not participate (optional group) must be reported with value None; its offsets are left open",
     "re0 patterns are always written with explicit ^ and $ (documented requirement of this matcher)",
     "custom types are registered while parse/cfparse is current and are visible to both (ParseMatcher and derived classes)",
@@ -430,20 +432,23 @@ class Model(object):
         eff = effective(op["pat"], text)
         same = amb = ident = False
         for d in self.defs[op["st"]]:
-            if d["text"] == text and d["fn"] == op["fn"]:
+            deff = effective(d["pat"], d["text"])
+            if d["fn"] == op["fn"] and d["text"] == text and deff == eff:
                 same = True
-                continue
-            if ref_match(d["pat"], text) is not None:
-                amb = True
-            elif effective(d["pat"], d["text"]) == eff:
-                # same text by another function that does not match itself as a text, or the
-                # same regex once written for 're' and once with explicit ^...$ for 're0'
+            elif d["fn"] == op["fn"] and (d["text"] == text or deff == eff):
+                # same function, but the same text once for 're' (implicitly anchored regex) and once
+                # for another matcher, or the same regex once for 're' and once with ^...$ for 're0'
                 ident = True
+            elif deff == eff and ref_match(d["pat"], text) is None:
+                # the same text by another function that does not match itself as a text
+                ident = True
+            elif ref_match(d["pat"], text) is not None:
+                amb = True
         if same:
-            return "either" if amb else "ignored"
-        if amb:
-            return "ambiguous"
-        return "either" if ident else "added"
+            return "either" if (amb or ident) else "ignored"
+        if ident:
+            return "either"
+        return "ambiguous" if amb else "added"
 
     def invalid(self, op):
         """Reason why op is outside the domain in the current state, or None."""
@@ -563,6 +568,11 @@ class Replayer(object):
             self.registry.make_decorator(stype)(text)(step_function(op["fn"]))
         except AmbiguousStep as e:
             raised = e
+        except Exception as e:      # noqa -- the pattern is valid for the current matcher by construction
+            res.fail("C11.register.failed", "@%s(%r) [%s matcher]: registration failed with %s: %s"
+                     % (stype, text, op["pat"]["kind"], type(e).__name__, str(e)[:300]), kind=op["pat"]["kind"])
+            self.diverged = True
+            return
         after = len(self.registry.steps[stype])
         what = "@%s(%r) [%s matcher, function #%d]" % (stype, text, op["pat"]["kind"], op["fn"])
         res.label("reg:" + exp)
@@ -932,6 +942,10 @@ def check_modules(res, case):
             res.fail("C11.modules.load-ambiguous", "loading non-overlapping step modules raised AmbiguousStep: %s"
                      % str(e).replace("\n", " "))
             return
+        except Exception as e:      # noqa -- every generated module is valid for the matcher it was written for
+            res.fail("C11.modules.load-failed", "loading step modules that are valid for the default matcher / the "
+                     "matcher they select failed with %s: %s" % (type(e).__name__, str(e)[:300]))
+            return
         current = matchers.get_step_matcher_factory().current_matcher.NAME
         if current != default:
             res.fail("C11.modules.matcher-after-load", "after load_step_modules the current matcher is %r, "
@@ -994,7 +1008,7 @@ def field_st(draw, kind, types, names, first):
     name = names.pop() if draw(st.integers(0, 3)) else None
     p = {}
     if kind in PARSE_KINDS:
-        pool = ["any", "d", "w", "f"] + sorted(types)
+        pool = ["any", "d", "w", "f"] + sorted(types) * (3 if kind == "cfparse" else 1)
         p["f"] = draw(st.sampled_from(pool))
         if kind == "cfparse" and p["f"] in CONVERTERS and draw(st.integers(0, 2)):
             p["card"] = draw(st.sampled_from(["+", "?", "*"]))
@@ -1106,7 +1120,8 @@ def pattern_case_st(draw):
     kind = draw(_weighted([("parse", 4), ("cfparse", 4), ("re", 4), ("re0", 2), ("cuke", 1)]))
     types = []
     if kind in PARSE_KINDS:
-        types = draw(st.lists(st.sampled_from(sorted(CONVERTERS)), unique=True, max_size=3).map(sorted))
+        types = draw(st.lists(st.sampled_from(sorted(CONVERTERS)), unique=True, max_size=3,
+                              min_size=1 if kind == "cfparse" else 0).map(sorted))
     pat = draw(pattern_st(kind, types))
     insts = draw(insts_st(pat))
     muts = draw(st.lists(mut_st(pat), min_size=1, max_size=4))
@@ -1190,6 +1205,13 @@ class C11Machine(RuleBasedStateMachine):
         self.ops.append(op)
         return True
 
+    @initialize(kind=st.sampled_from(KINDS), types=st.lists(st.sampled_from(sorted(CONVERTERS)), unique=True))
+    def start(self, kind, types):
+        for name in types:
+            self.emit({"op": "type", "name": name})
+        if kind != "parse":
+            self.emit({"op": "use", "kind": kind})
+
     @rule(kind=st.sampled_from(KINDS))
     def use_step_matcher(self, kind):
         self.emit({"op": "use", "kind": kind})
@@ -1214,7 +1236,7 @@ class C11Machine(RuleBasedStateMachine):
         pat["kind"] = kind
         stype, fn = d["st"], d["fn"]
         mode = data.draw(st.sampled_from(["same", "same", "other-type", "other-type", "other-fn", "generalise",
-                                          "specialise", "retype"]))
+                                          "generalise", "generalise", "specialise", "retype"]))
         fidx = [i for i, p in enumerate(pat["parts"]) if "f" in p]
         if mode in ("generalise", "specialise", "retype") and not fidx:
             mode = "other-type"
@@ -1233,7 +1255,7 @@ class C11Machine(RuleBasedStateMachine):
                 names = [n for n in NAMES if n not in [p.get("n") for p in pat["parts"]]]
                 pat["parts"][i] = data.draw(field_st(kind, sorted(self.model.types), names, first=(i == 0)))
             fn = data.draw(st.integers(0, NFUNCS - 1))
-            stype = data.draw(st.sampled_from([d["st"], d["st"], "step", "given"]))
+            stype = data.draw(st.sampled_from([d["st"], d["st"], d["st"], "step", "given"]))
         if not self.emit({"op": "reg", "st": stype, "fn": fn, "pat": pat}) and mode == "other-fn":
             stype = data.draw(st.sampled_from([t for t in STYPES if t != d["st"]]))
             self.emit({"op": "reg", "st": stype, "fn": fn, "pat": pat})
@@ -1266,8 +1288,8 @@ class C11Machine(RuleBasedStateMachine):
 def explore(rec):
     k = 1 if rec.tier == "quick" else 20
     rec.enum("re-register", reregister_cases())
-    rec.hyp("patterns", pattern_case_st(), 5000 * k)
-    rec.machine("histories", C11Machine, 400 * k, steps=30)
+    rec.hyp("patterns", pattern_case_st(), 6000 * k)
+    rec.machine("histories", C11Machine, 1000 * k, steps=30)
     rec.hyp("step-modules", modules_case_st(), 400 * k)
 
 
